@@ -41,6 +41,7 @@ Definition K_PEERDOWN : N := 2.
 Definition K_PEERUP : N := 3.
 Definition K_INIT : N := 4.
 Definition K_TERM : N := 5.
+Definition K_MIRROR : N := 6.  (* Route Mirroring (RFC 7854 4.7); the numbers are the RFC's type codes *)
 
 Record input := MkIn {
   in_kind : N;
@@ -239,3 +240,23 @@ Fixpoint out_calls (p : prog) : nat :=
   | PLet _ _ r => out_calls r
   | PIf _ th el r => out_calls th + out_calls el + out_calls r
   end%nat.
+
+(* ------------------------------------------------------------------ provenance-only scripts *)
+
+(* does a condition / a program read nothing of its input but the provenance
+   (prov.peer_asn())?  Such a filter is "about a peer", not about a message. *)
+Definition pred_prov_only (p : pred) : bool :=
+  match p with PPeerAsn _ => true | _ => false end.
+Fixpoint cond_prov_only (c : cond) : bool :=
+  match c with
+  | CTrue | CFalse => true
+  | CPred p => pred_prov_only p
+  | CNot c => cond_prov_only c
+  | CAnd a b | COr a b => cond_prov_only a && cond_prov_only b
+  end.
+Fixpoint prov_only (p : prog) : bool :=
+  match p with
+  | PEnd | PRet _ => true
+  | POut _ r | PLet _ _ r => prov_only r
+  | PIf c th el r => cond_prov_only c && prov_only th && prov_only el && prov_only r
+  end.
